@@ -105,7 +105,9 @@ def work(cases):
                          "wrhsh": st[1].GetBody().GetStatements()[0].GetExpression().GetRight().GetRight(),
                          "incx": st[2].GetExpression().GetExpression(), "decx": st[3].GetExpression().GetExpression(),
                          "aredecl": st[4].GetDeclarations()[0],
-                         "buse": st[4].GetDeclarations()[0].GetInitializerExpression(), "xuse": st[5].GetExpression(),
+                         "buse": st[4].GetDeclarations()[0].GetInitializerExpression(),
+                         "casgx": st[5].GetExpression().GetLeft(), "casga": st[5].GetExpression().GetRight().GetLeft(), "casgg": st[5].GetExpression().GetRight().GetRight(),
+                         "xuse": st[6].GetExpression(),
                          "hdecl": mod.GetDeclarations()[1].GetDeclarations()[0]}
                 bad = None
                 for name, node in nodes.items():
@@ -114,10 +116,21 @@ def work(cases):
                         bad = (f"identifier-range:{name}", f"identifier `{name}` is reported at {got}, its characters are at {fmt(case['located'][name])}")
                         break
                 if bad is None:
+                    casgprod = st[5].GetExpression().GetRight()
+                    # the compiler's own AST passes, in its order, up to and including the one that computes the composite ranges
+                    import io
+                    from nsl import Compiler
+                    ran = []
                     with quiet():
-                        UpdateLocations.GetPass().Process(mod)
+                        for p_ in Compiler.Compiler().astPasses:
+                            p_.Process(mod, output=io.StringIO())
+                            ran.append(p_.Name)
+                            if p_.Name == UpdateLocations.GetPass().Name:
+                                break
+                    if ran[-1] != UpdateLocations.GetPass().Name:
+                        raise RuntimeError("the compiler's pass list has no location pass: " + str(ran))
                     comp = {"sum": st[0].GetDeclarations()[0].GetInitializerExpression(), "xdeclstmt": st[0], "whilecond": st[1].GetCondition(), "whilestmt": st[1],
-                            "aredeclstmt": st[4], "retstmt": st[5], "function": f, "module": mod}
+                            "aredeclstmt": st[4], "casgprod": casgprod, "casgstmt": st[5], "retstmt": st[6], "function": f, "module": mod}
                     for name, node in comp.items():
                         got = str(node.GetLocation())
                         if got != fmt(case["composites"][name]):
